@@ -17,6 +17,7 @@ import numpy as np
 from lib import sim
 
 HBARS = [1.0, 0.5, 0.7, 3.0, 4.5, 0.98]
+MAX_WEIGHTS_FOCK = 12
 # power of s carried by numeric parameter j of a class
 PAR_DIM = {"Xgate": [1], "Zgate": [1], "Vgate": [-1]}
 
@@ -117,10 +118,11 @@ def _c(z):
 
 
 def _arr(a):
+    """every answer as a float array with a trailing (re, im) axis (np.real_if_close makes the dtype data dependent)"""
     a = np.asarray(a)
-    if np.iscomplexobj(a):
-        return np.stack([a.real, a.imag], axis=-1).astype(float)
-    return a.astype(float)
+    if a.dtype == object:
+        a = a.astype(complex)
+    return np.stack([a.real, a.imag if np.iscomplexobj(a) else np.zeros(a.shape)], axis=-1).astype(float)
 
 
 def observe(sf, st, call, h):
@@ -163,6 +165,8 @@ def observe(sf, st, call, h):
             return _arr(np.array(st.fidelity_vacuum()))
         if m == "fidelity_coherent":
             return _arr(np.array(st.fidelity_coherent([complex(a, b) for a, b in call["alpha"]])))
+        if m in ("fock_prob", "reduced_dm", "dm") and getattr(st, "num_weights", 1) > MAX_WEIGHTS_FOCK:
+            return "skipped"       # thewalrus per-component Fock routines: seconds per call
         if m == "fock_prob":
             return _arr(np.array(st.fock_prob(list(call["n"]), cutoff=call.get("cutoff", 8))))
         if m == "all_fock_probs":
@@ -284,7 +288,10 @@ def rand_plan(rng, backend, n, length, fock_cutoff=6):
             c["n"] = [rng.choice([0, 0, 1, 2]) for _ in modes]
             c["cutoff"] = sum(c["n"]) + 2
         if m == "all_fock_probs":
-            c["cutoff"] = 3 if n >= 3 else 4
+            c["cutoff"] = 4
+            if n >= 3:                       # numba compiles per mode count (20 s for 4 modes): use fock_prob instead
+                c = dict(m="fock_prob", n=[rng.choice([0, 0, 1, 2]) for _ in modes])
+                c["cutoff"] = sum(c["n"]) + 2
         if m == "poly_quad_expectation":
             N2 = 2 * n
             A = np.zeros((N2, N2))
@@ -354,6 +361,10 @@ def special_op(rng, n, backend, measured):
         kinds += ["heterodyne"]
     if measured:
         kinds += ["feed", "feed"]
+    if backend == "bosonic" and n == 1:
+        # the bosonic back end cannot post-select / measure the only mode of a register (IndexError in
+        # reassemble_multi at every hbar): not an hbar matter, keep such programs out
+        kinds = [k for k in kinds if k not in ("homodyne", "heterodyne")]
     kind = rng.choice(kinds)
     m = rng.randrange(n)
     if kind == "gaussian":
@@ -404,11 +415,16 @@ def special_op(rng, n, backend, measured):
 
 def rand_program(rng, backend, n=None):
     fock = backend.startswith("fock")
-    n = n or (rng.choice([1, 1, 2, 2, 3]) if fock else rng.choice([1, 1, 2, 2, 3, 3, 4]))
+    if n is None:
+        n = rng.choice([1, 1, 2, 2, 3]) if fock else rng.choice([1, 1, 2, 2, 3] if backend == "bosonic" else [1, 1, 2, 2, 3, 3, 4])
     ops = []
+    nong = 0
     if backend == "bosonic":
         for m in range(n):
-            c = rng.choice(["Catstate", "GKP", "Fock", "none", "none", "none"])
+            c = rng.choice(["Catstate", "GKP", "Fock", "none", "none", "none"]) if nong < 2 else "none"
+            if c == "GKP" and nong:
+                c = "Fock"                    # GKP has ~40 components: keep the tensor product small
+            nong += c != "none"
             if c == "Catstate":
                 ops.append(dict(cls="Catstate", regs=[m], pars=[round(rng.uniform(0.5, 1.4), 2), sim.angle(rng), rng.choice([0, 1])],
                                 kw=dict(representation=rng.choice(["complex", "complex", "real"]))))
@@ -434,6 +450,12 @@ def rand_program(rng, backend, n=None):
             measured.append(op["regs"][0])
         if backend == "bosonic" and op["cls"] in ("Catstate", "GKP", "Fock"):
             continue
+        if backend == "bosonic" and nong:
+            # sampling a homodyne outcome from a multi-component state is rejection sampling (minutes): post-select
+            if op["cls"] == "MeasureHomodyne" and op.get("select") is None:
+                op["select"] = round(rng.uniform(-0.8, 0.8), 2)
+            if op["cls"] == "MSgate":
+                op["pars"][4] = True
         ops.append(op)
     spec = dict(n=n, ops=ops)
     if fock:
